@@ -11,7 +11,7 @@ that value or one of its ancestors.  Plus E: call-graph cycles reachable from th
 """
 import re
 
-from .. import mirg, taint
+from .. import hirq, mirg, symx, taint
 from ..mirg import plocal, pproj, op_local
 from ..mirg import rvalue_operands as rvalue_ops
 from ..rules import ncallee, norm
@@ -135,6 +135,65 @@ def _widened_signed(f, ft, ops):
         if not srcs or any(_BITS.get(s_, 999) >= _BITS[ty] for s_ in srcs):
             return False
     return True
+
+
+def probe_wrap_exit_rule(ctx, prog, pid):
+    """cyclic probe loops over a table taken from an opened archive terminate when the table has no free slot (shared by C05: a
+    hostile/full table must not hang a lookup, and C06: every mutation operation terminates)"""
+    from .. import hirq, symx
+    R_probe = ctx.rule("%s.%scyclic-probe-loops-wrap-exit" % (pid, "G-" if pid == "C05" else ""), "every `loop` stepping `i = (i + 1) & mask` over an archive's table exits when i returns to its starting value (a full table cannot hang the lookup)", floor=3)
+    mpq_c = prog.crate("wow_mpq")
+    consts_ = {k: v.get("v") for k, v in mpq_c.consts().items()}
+    for f in mpq_c.fn_list:
+        if f.kind == "Closure" or not f.hir or "::tests::" in f.path or "::debug::" in f.path or "::test_utils" in f.path:
+            continue
+        blk = hirq.strip(f.hir["body"])
+        if blk.get("k") != "block":
+            continue
+        s_ = symx.Sym(consts_)
+        for p_ in f.hir["params"]:
+            for b_ in hirq.pat_binds(p_):
+                s_.env[b_] = symx.var(b_)
+        for st in blk.get("stmts", []) + ([blk["e"]] if blk.get("e") else []):
+            lp = st if st.get("k") == "loop" else None
+            if lp is None:
+                try:
+                    s_.stmt(st)
+                except Exception:
+                    pass
+                continue
+            idx = None
+            for x in hirq.walk(lp["body"]):
+                if x.get("k") == "assign" and hirq.strip(x["l"]).get("k") == "path":
+                    nm = hirq.strip(x["l"])["res"].get("local")
+                    if nm and re.search(r"\(\(%s \+ 1\) &" % re.escape(nm), hirq.render(x["r"])):
+                        idx = nm
+            if idx is None:
+                continue
+            ctx.saw_fn(f)
+            key = "G|%s" % norm(f.path)
+            if norm(f.path).startswith("wow_mpq::builder::"):
+                ctx.ok(R_probe, {"fn": norm(f.path), "scope": "writer-side insertion into a table the builder sized itself; not an input-handling path"})
+                continue
+            start = s_.env.get(idx)
+            exits = []
+            for n in hirq.find(lp["body"], "if"):
+                c = hirq.strip(n["c"])
+                if c.get("k") == "bin" and c["op"] == "==" and any(hirq.strip(c[sd]).get("k") == "path" and hirq.strip(c[sd])["res"].get("local") == idx for sd in ("l", "r")) \
+                        and any(y.get("k") in ("ret", "break") for y in hirq.walk(n["then"])):
+                    other = c["r"] if hirq.strip(c["l"]).get("k") == "path" and hirq.strip(c["l"])["res"].get("local") == idx else c["l"]
+                    try:
+                        exits.append((symx.render(s_.ev(other)), n["ln"]))
+                    except Exception as e_:
+                        exits.append(("?%s" % e_, n["ln"]))
+            rs = symx.render(start) if start is not None else None
+            if rs is not None and any(e_[0] == rs for e_ in exits):
+                ctx.ok(R_probe, {"fn": norm(f.path), "start": rs[:80], "wrap_exit_line": next(e_[1] for e_ in exits if e_[0] == rs)})
+            elif any(y.get("k") == "for" for y in hirq.walk(lp["body"])) and False:
+                pass
+            else:
+                ctx.bad(R_probe, key, "%s:%d" % (f.file, lp["ln"]), "probe loop over `%s` starts at `%s`; exits comparing the index: %s" % (idx, (rs or "?")[:70], [e_[0][:60] for e_ in exits] or "none"),
+                        "with no never-used slot in the table (every slot occupied or a tombstone — an attacker-chosen or simply full table) a lookup of an absent name never returns")
 
 
 def run(ctx):
@@ -474,61 +533,7 @@ def run(ctx):
                         ctx.bad(R_incl, "J|%s|inclusive-index-guard" % path, "%s:%d" % (f.file, ln), "the index used at line %d is only known to be <= its bound (comparison `%s` at line %d), so the bound itself is admitted" % (ln, opc, st["ln"]),
                                 "an index equal to the element count passes the guard and panics with index out of bounds")
 
-    # G: cyclic probe loops over a table taken from an opened archive terminate when the table has no free slot
-    from .. import hirq, symx
-    R_probe = ctx.rule("C05.G-cyclic-probe-loops-wrap-exit", "every `loop` stepping `i = (i + 1) & mask` over an archive's table exits when i returns to its starting value (a full table cannot hang the lookup)", floor=3)
-    mpq_c = prog.crate("wow_mpq")
-    consts_ = {k: v.get("v") for k, v in mpq_c.consts().items()}
-    for f in mpq_c.fn_list:
-        if f.kind == "Closure" or not f.hir or "::tests::" in f.path or "::debug::" in f.path or "::test_utils" in f.path:
-            continue
-        blk = hirq.strip(f.hir["body"])
-        if blk.get("k") != "block":
-            continue
-        s_ = symx.Sym(consts_)
-        for p_ in f.hir["params"]:
-            for b_ in hirq.pat_binds(p_):
-                s_.env[b_] = symx.var(b_)
-        for st in blk.get("stmts", []) + ([blk["e"]] if blk.get("e") else []):
-            lp = st if st.get("k") == "loop" else None
-            if lp is None:
-                try:
-                    s_.stmt(st)
-                except Exception:
-                    pass
-                continue
-            idx = None
-            for x in hirq.walk(lp["body"]):
-                if x.get("k") == "assign" and hirq.strip(x["l"]).get("k") == "path":
-                    nm = hirq.strip(x["l"])["res"].get("local")
-                    if nm and re.search(r"\(\(%s \+ 1\) &" % re.escape(nm), hirq.render(x["r"])):
-                        idx = nm
-            if idx is None:
-                continue
-            ctx.saw_fn(f)
-            key = "G|%s" % norm(f.path)
-            if norm(f.path).startswith("wow_mpq::builder::"):
-                ctx.ok(R_probe, {"fn": norm(f.path), "scope": "writer-side insertion into a table the builder sized itself; not an input-handling path"})
-                continue
-            start = s_.env.get(idx)
-            exits = []
-            for n in hirq.find(lp["body"], "if"):
-                c = hirq.strip(n["c"])
-                if c.get("k") == "bin" and c["op"] == "==" and any(hirq.strip(c[sd]).get("k") == "path" and hirq.strip(c[sd])["res"].get("local") == idx for sd in ("l", "r")) \
-                        and any(y.get("k") in ("ret", "break") for y in hirq.walk(n["then"])):
-                    other = c["r"] if hirq.strip(c["l"]).get("k") == "path" and hirq.strip(c["l"])["res"].get("local") == idx else c["l"]
-                    try:
-                        exits.append((symx.render(s_.ev(other)), n["ln"]))
-                    except Exception as e_:
-                        exits.append(("?%s" % e_, n["ln"]))
-            rs = symx.render(start) if start is not None else None
-            if rs is not None and any(e_[0] == rs for e_ in exits):
-                ctx.ok(R_probe, {"fn": norm(f.path), "start": rs[:80], "wrap_exit_line": next(e_[1] for e_ in exits if e_[0] == rs)})
-            elif any(y.get("k") == "for" for y in hirq.walk(lp["body"])) and False:
-                pass
-            else:
-                ctx.bad(R_probe, key, "%s:%d" % (f.file, lp["ln"]), "probe loop over `%s` starts at `%s`; exits comparing the index: %s" % (idx, (rs or "?")[:70], [e_[0][:60] for e_ in exits] or "none"),
-                        "with no never-used slot in the table (every slot occupied or a tombstone — an attacker-chosen or simply full table) a lookup of an absent name never returns")
+    probe_wrap_exit_rule(ctx, prog, "C05")
 
     # I: a vector whose length was clamped to what the input could supply (`ideal.min(available)`) is not indexed by a counter
     #    that runs to the unclamped count
